@@ -1,13 +1,50 @@
 """C02 — see DESIGN.md section 5."""
+import json
+import common as C
+import boardcorr as B
 from props import boardprop
-
 FIELDS = ("unmake.restored","unmake.nested","engine.unmake_not_restored","engine.nested_not_restored","engine.query_not_pure","spec.wf")
 PREFIXES = ()
 HAS_PROOFS = True
+START = "rnbqkbnr/pppppppp/8/8/8/8/PPPPPPPP/RNBQKBNR w KQkq - 0 1"
 
 
 def run(ctx):
-    return boardprop.run(ctx, "C02", FIELDS, PREFIXES, "unmake does not restore the position", has_proofs=HAS_PROOFS)
+    res = boardprop.run(ctx, "C02", FIELDS, PREFIXES, "unmake does not restore the position", has_proofs=HAS_PROOFS)
+    if res["coverage"].get("evaluations", 0) == 0:
+        return res
+    # ---- very long games on the engine alone (no model evaluation needed: `Board == snapshot` after every make/unmake and after
+    # every query is judged by the engine's own derived equality): positions that recur HUNDREDS of times — the count of a remembered
+    # position crosses 255 / 256 (seeded change r7C02: an 8-bit count that saturates on make but is decremented on unmake)
+    n = 275 if ctx["tier"] == "quick" else 700
+    games = [(START, ["g1f3", "g8f6", "f3g1", "f6g8"] * n),
+             ("4k3/8/8/8/8/8/8/R3K2R w KQ - 0 1", ["a1b1", "e8d8", "b1a1", "d8e8"] * n),
+             ("7k/8/8/8/8/8/8/KQ6 b - - 0 1", ["h8g8", "b1b2", "g8h8", "b2b1"] * (n // 2) + ["h8h7", "b1c1", "h7h8", "c1b1"] * (n // 2))]
+    rc, so, se = C.driver(["walk"], "".join("%s | %s\n" % (f, " ".join(ms)) for f, ms in games), timeout=1800)
+    lines = so.splitlines()
+    if rc != 0 or len(lines) != len(games):
+        rp = C.write_replay("C02", {"broken": "long-game leg (driver walk) did not complete", "stderr": (se or "")[-500:]})
+        res["violations"].append({"replay": rp, "no_input": True})
+        return res
+    nodes = 0
+    for (f, ms), l in zip(games, lines):
+        eng = json.loads(l)
+        case = {"kind": "long-game", "fen": f, "moves": ms, "deep": False}
+        nodes += 0 if eng.get("panic") else len(eng["nodes"])
+        bad = B.engine_self_checks(case, eng)
+        if eng.get("stuck"):
+            bad.append({"field": "engine.move_refused", "node": len(eng.get("nodes", [])), "engine": eng["stuck"]})
+        if bad:
+            d = bad[0]
+            k = max(d.get("node", 0), 0)
+            rp = C.write_replay("C02", {"kind": "long game on the engine alone: after a make/unmake (or a mere query) the board differs from its snapshot",
+                                        "divergence": d, "after_plies": k, "position_recurred_about": k // 4,
+                                        "case": {"fen": f, "moves": ms[:k], "kind": "long-game"},
+                                        "replay_cmd": "printf '%s | %s\\n' | %s verif walk | python3 -c \"import sys,json; d=json.loads(sys.stdin.read()); print([ (i,n[5]) for i,n in enumerate(d['nodes']) if n[5][0]!=1 or any(m[2]!=1 for m in n[1])][:3])\"" % (
+                                            f, " ".join(ms[:k + 1]), C.ENGINE)})
+            res["violations"].append({"replay": rp})
+    res["coverage"]["long_game_nodes_engine_only"] = nodes
+    return res
 
 
 def replay(ctx, payload):
